@@ -68,6 +68,20 @@ func genStepCase(t *rapid.T, forced []int, limited int) stepCase {
 		}
 		c.Core[c.PC] = gen.Instr(m).Draw(t, "pccell")
 	}
+	// operand values at the folding boundaries of this case's limits
+	if rapid.IntRange(0, 3).Draw(t, "bndfields") == 0 {
+		r, w := c.Cfg.R, c.Cfg.W
+		cands := []int{r / 2, r/2 + 1, r - 1, r, r + 1, w / 2, w/2 + 1, w - 1, w, w + 1, m - r/2, m - r/2 - 1, m - w/2, m - w/2 - 1, r + r/2, r + r/2 + 1, w + w/2 + 1}
+		norm := func(v int) int { return ((v % m) + m) % m }
+		cell := &c.Core[c.PC]
+		cell.A = norm(rapid.SampledFrom(cands).Draw(t, "bndA"))
+		cell.B = norm(rapid.SampledFrom(cands).Draw(t, "bndB"))
+		// and in the cells they point at (second-level pointers)
+		c.Core[(c.PC+cell.A)%m].A = norm(rapid.SampledFrom(cands).Draw(t, "bndAA"))
+		c.Core[(c.PC+cell.A)%m].B = norm(rapid.SampledFrom(cands).Draw(t, "bndAB"))
+		c.Core[(c.PC+cell.B)%m].A = norm(rapid.SampledFrom(cands).Draw(t, "bndBA"))
+		c.Core[(c.PC+cell.B)%m].B = norm(rapid.SampledFrom(cands).Draw(t, "bndBB"))
+	}
 	if len(forced) > 0 {
 		f := rapid.SampledFrom(forced).Draw(t, "form")
 		c.Core[c.PC] = gen.InstrForm(f, m).Draw(t, "forced")
